@@ -4,6 +4,7 @@ CONSTANTS
   Lines <- TraceLinesLit
   MaxCount = 1000000
   BadBytes = "BADBYTES"
+  FailModes = {FALSE}
 INVARIANT Ok
 INVARIANT RegIsBalance
 CHECK_DEADLOCK FALSE
